@@ -798,6 +798,7 @@ def check_checksum(pkt: bytes):
     """the 18 x 255 corruption table on a real USB packet"""
     from nmea2000.decoder import NMEA2000Decoder
     d = NMEA2000Decoder()
+    d._decode = lambda *a, **k: "reached"     # a first fast-packet frame alone yields no message: observe the hand-over
     try:
         ok = d.decode_usb(pkt)
     except Exception:  # noqa: BLE001
